@@ -132,6 +132,34 @@ func gen(r *rand.Rand, idx int, tier string) Input {
 			in.Ops = append(in.Ops, stor.Op{Kind: "get", Name: stor.RandSelector(r, series).RandName(r), From: from, Until: until})
 		}
 	}
+	// a window whose end is not a multiple of 10 s, with a series whose very first profile lies in that last, partial
+	// slot next to an older series that has data there too (the last entry sums both)
+	lateUntil := int64(0)
+	if r.Intn(4) == 0 {
+		lateUntil = until/10*10 + 1 + r.Int63n(9)
+		last := lateUntil / 10 * 10
+		if last > lo && last < hi {
+			late := stor.SeriesDef{App: app, Tags: map[string]string{"late": lib.Pick(r, []string{"1", "2"})}}
+			old := series[r.Intn(len(series))]
+			in.Ops = append(in.Ops, stor.Op{Kind: "put", Name: old.RandName(r), From: last, Until: last + 10,
+				Stacks: stor.EvenStacks(r, 1+r.Intn(2), 1, true), Spy: "gospy", Rate: 100, Units: "samples", Agg: agg})
+			in.Ops = append(in.Ops, stor.Op{Kind: "put", Name: late.RandName(r), From: last, Until: last + 10,
+				Stacks: stor.EvenStacks(r, 1+r.Intn(2), 1, true), Spy: "gospy", Rate: 100, Units: "samples", Agg: agg})
+			in.Ops = append(in.Ops, stor.Op{Kind: "get", Name: app + "{}", From: from, Until: lateUntil})
+			if span > 12 {
+				in.Ops = append(in.Ops, stor.Op{Kind: "get", Name: app + "{}", From: lateUntil - 53, Until: lateUntil})
+			}
+		}
+	}
+	// the segment objects are read back from their stored form before the queries (eviction or graceful restart):
+	// coarse timelines read the counters of inner nodes, which only the codec restores
+	if r.Intn(3) == 0 {
+		if r.Intn(3) == 0 && !in.HTTP {
+			in.Ops = append(in.Ops, stor.Op{Kind: "restart"})
+		} else {
+			in.Ops = append(in.Ops, stor.Op{Kind: "evict", Cache: "segments", Frac: 1})
+		}
+	}
 	in.Ops = append(in.Ops, stor.Op{Kind: "get", Name: app + "{}", From: from, Until: until})
 	if r.Intn(2) == 0 {
 		in.Ops = append(in.Ops, stor.Op{Kind: "get", Name: stor.RandSelector(r, series).RandName(r), From: from + r.Int63n(10), Until: until + r.Int63n(10)})
